@@ -13,6 +13,7 @@ __ebd_read_line() {
 	local ret=$?
 	[[ ${ret} -ne 0 ]] && \
 		die "coms error in ${PKGCORE_EBD_PID}, read_line $@ failed w/ ${ret}"
+	return 0
 }
 
 # Read a line into an array using a bell char as a delimiter since the null char
